@@ -1,0 +1,11 @@
+//go:build !verif
+
+package cache
+
+import "github.com/oasisprotocol/curve25519-voi/curve"
+
+// No-op versions of the verification hooks (see lru_verif.go).
+
+func verifGate(op string, publicKey *curve.CompressedEdwardsY) {}
+
+func verifEvent(cache *lruCache, op string, publicKey *curve.CompressedEdwardsY) {}
